@@ -196,7 +196,7 @@ Definition Target_contents_stmt := forall s i, Inv s -> i < length (s_hs s) ->
         length (abs s' i) = n
         /\ (forall k, k < Nat.min (h_size (geth s i)) n -> nth k (abs s' i) 0%Z = nth k (abs s i) 0%Z)
         /\ (h_psz (geth s i) < n -> forall k, h_size (geth s i) <= k -> nth k (abs s' i) 0%Z = 0%Z)).
-(* not proved (correspondence + value oracle only): Array0(p,givWithCopy), copy/operator=, allocate, write, reserve *)
+(* Array0(p,givWithCopy), copy/operator=, allocate, write, reserve: see ProofsSizes.v (Target_contents_more) *)
 
 Lemma Target_contents_proof : Target_contents_stmt.
 Proof.
